@@ -313,11 +313,15 @@ impl Value {
         }
         flags.reverse_sorted();
         self.meta.flags |= flags;
+        // NaN is ordered last whatever its sign, so it does not move to the other end
         if (self.meta.is_sorted_up() || self.meta.is_sorted_down())
-            && let Value::Num(arr) = self
-            && arr.data.iter().any(|n| n.is_nan())
+            && match &*self {
+                Value::Num(arr) => arr.data.iter().any(|n| n.is_nan()),
+                Value::Complex(arr) => arr.data.iter().any(|c| c.re.is_nan() || c.im.is_nan()),
+                _ => false,
+            }
         {
-            arr.meta.take_sorted_flags();
+            self.meta.take_sorted_flags();
         }
     }
 }
